@@ -109,7 +109,7 @@ def model(init, r):
     r %= n
     feats = []
     for (typ, parts, fid) in init["feats"]:
-        q = {"label": [fid], "note": ["n-" + fid, "second"]}
+        q = gen.qualifiers_for(fid)
         den = rm.rotate_denoted(rm.denoted(parts, n), n, r)
         feats.append([typ, fid, json.dumps(snapshot._plain(q), sort_keys=True), canon_den(den, n)])
     feats.sort(key=lambda x: (x[1], x[0]))
